@@ -178,7 +178,7 @@ func C05ExtraConfigs(thorough bool) []*world.Config {
 	cs = append(cs, world.BytesCfg(4, []uint8{0, 1, 0, 0, 1}, M, "none"))
 	cs = append(cs, world.Int64Cfg(2, []int64{-8, -3, 0, 2, 4, 1 << 40}, M, "none"))
 	cs = append(cs, world.Uint64Cfg(2, []uint64{0, 1, 2, 4, 1<<53 + 1, 1 << 63}, B, "none"))
-	cs = append(cs, depth(world.Uint64Cfg(2, []uint64{0, 1, 2, 4, 1<<53 + 1, 1 << 63}, M, "big"), 6))
+	cs = append(cs, depth(world.Uint64Cfg(2, []uint64{0, 1, 2, 4, 1<<53 + 1, 1 << 63}, M, "big"), 5))
 	nv := world.IntCfg(2, []int{1, 2, 3, 4, 8}, []interface{}{nil}, nil, B, "none")
 	nv.RegisteredTypes = true
 	cs = append(cs, nv)
@@ -188,8 +188,8 @@ func C05ExtraConfigs(thorough bool) []*world.Config {
 	cs = append(cs, tg)
 	tl := world.LKeyCfg(2, []uint8{0, 1, 0, 2, 0}, 2, M, "big")
 	tl.Tagged = true
-	tl.MaxDepth = 6
-	tl.Name = "tagged/" + tl.Name + "/depth6"
+	tl.MaxDepth = 5
+	tl.Name = "tagged/" + tl.Name + "/depth5"
 	cs = append(cs, tl)
 	return cs
 }
